@@ -384,6 +384,15 @@ fn sandbox() -> &'static std::path::PathBuf {
         std::fs::write(p.join("prog-ö.asm"), "#! mrasm\n    INC R1\n    STOP\n").expect("sandbox file");
         // uses the stack without LDSP: error stop with SP = 0xFF (outside RAM)
         std::fs::write(p.join("nosp.asm"), "#! mrasm\n    PUSH R0\n    STOP\n").expect("sandbox file");
+        // a NOP slide over the whole RAM with the program size limit lifted: the program counter
+        // leaves RAM (0xF0..) and the machine error-stops on what the I/O area reads as
+        {
+            let mut slide = String::from("#! mrasm\n*PROGRAMSIZE 255\n");
+            for _ in 0..240 {
+                slide.push_str("    NOP\n");
+            }
+            std::fs::write(p.join("slide.asm"), slide).expect("sandbox file");
+        }
         // keeps running and counting (for large `next N`)
         std::fs::write(p.join("count.asm"), "#! mrasm\nLOOP:\n    INC R0\n    ST (0xFF), R0\n    JR LOOP\n").expect("sandbox file");
         // drives both DACs high (comparator bits fall), then stops
@@ -394,7 +403,7 @@ fn sandbox() -> &'static std::path::PathBuf {
     })
 }
 
-pub const LOAD_TARGETS: [&str; 23] = ["~", "~é", "~/good.asm", "~nobody/x.asm", "nosp.asm", "count.asm", "prog-ä.asm", "prog-ö.asm", "dac.asm", "umlaut-lines.asm", "verybad.asm", "progs/sub/a-rather-long-file-name-for-the-info-pane-of-the-sidebar.asm", "long.asm", "good.asm", "progs/a.asm", "progs/b.asm", "progs/sub/c.asm", "with space.asm", "ümlaut.asm", "bad.asm", "nonutf8.asm", "missing.asm", "progs"];
+pub const LOAD_TARGETS: [&str; 24] = ["slide.asm", "~", "~é", "~/good.asm", "~nobody/x.asm", "nosp.asm", "count.asm", "prog-ä.asm", "prog-ö.asm", "dac.asm", "umlaut-lines.asm", "verybad.asm", "progs/sub/a-rather-long-file-name-for-the-info-pane-of-the-sidebar.asm", "long.asm", "good.asm", "progs/a.asm", "progs/b.asm", "progs/sub/c.asm", "with space.asm", "ümlaut.asm", "bad.asm", "nonutf8.asm", "missing.asm", "progs"];
 
 fn key_of(name: &str) -> Option<KeyCode> {
     Some(match name {
@@ -1162,9 +1171,16 @@ impl Check for C17 {
         if rng.chance(1, 60) {
             // stack used without LDSP (SP leaves RAM), then both views at a large terminal size
             let (w, h) = (100 + rng.below(150) as u16, 30 + rng.below(70) as u16);
-            let mut events = vec![Ev::Line("load nosp.asm".into())];
-            for _ in 0..12 + rng.below(20) {
-                events.push(Ev::Key("Enter".into()));
+            let mut events = vec![];
+            if rng.bool() {
+                events.push(Ev::Line("load nosp.asm".into()));
+                for _ in 0..12 + rng.below(20) {
+                    events.push(Ev::Key("Enter".into()));
+                }
+            } else {
+                // program counter outside RAM
+                events.push(Ev::Line("load slide.asm".into()));
+                events.push(Ev::Line(format!("next {}", 700 + rng.below(200))));
             }
             events.push(Ev::Line("show memory".into()));
             events.push(Ev::Line("show register".into()));
